@@ -3,3 +3,8 @@ import NTV.Proofs.C11
 #print axioms NTV.C11.henselLift_full
 #print axioms NTV.C11.exponent_one_unchanged
 #print axioms NTV.C11.division_contract
+#print axioms NTV.C11.witness_spec
+#print axioms NTV.C11.witness_spec_unreduced
+#print axioms NTV.C11.lift_two_spec
+#print axioms NTV.C11.lift_factorization_spec
+#print axioms NTV.C11.lift_factorization_monic
